@@ -22,6 +22,7 @@ def run(ctx):
     lib_ibd.counters(ctx, P)
     lib_ibd.ancestry_append(ctx, P)
     lib_ibd.finder_run(ctx, P)
+    lib_ibd.pair_keys(ctx, P)
     lib_ibd.widening(ctx, P, tus=["tables"])
     lib_module.options_plumbing(ctx, P, funcs={"TableCollection_ibd_segments_within", "TableCollection_ibd_segments_between"})
     lib_module.flags_consumed(ctx, P, funcs={"TableCollection_ibd_segments_within", "TableCollection_ibd_segments_between"})
